@@ -589,7 +589,7 @@ func c09R5(p *core.Program, r *core.Report, sc *scanClosure) {
 
 func c09R6(p *core.Program, r *core.Report, sc *scanClosure) {
 	const rule = "R6"
-	r.Floor(rule, 4)
+	r.Floor(rule, 5)
 	for _, c := range []*scanClosure{sc} {
 		info := c.f.Info()
 		var bad []string
@@ -675,6 +675,41 @@ func c09R6(p *core.Program, r *core.Report, sc *scanClosure) {
 		return true
 	})
 	r.Check(okStore, rule, tf, "T stores the format argument unmodified", tf.Node().Pos(), "format: <parameter>", "T does not store its format parameter as is")
+	// every binding the argument sets yield is stored under its name: a binding that is
+	// dropped (e.g. because its snippet is empty) turns "renders nothing" into "missing argument" (panic)
+	tg := graph(tf)
+	nloops := 0
+	ast.Inspect(tf.Body, func(n ast.Node) bool {
+		rs, ok := n.(*ast.RangeStmt)
+		if !ok {
+			return true
+		}
+		c, isCall := ast.Unparen(rs.X).(*ast.CallExpr)
+		if !isCall || !strings.HasSuffix(core.CalleeName(info, c), ").Args") {
+			return true
+		}
+		nloops++
+		kv, vv := core.VarOf(info, rs.Key), core.VarOf(info, rs.Value)
+		isStore := func(m ast.Node) bool {
+			as, ok := m.(*ast.AssignStmt)
+			if !ok || len(as.Lhs) != 1 || len(as.Rhs) != 1 {
+				return false
+			}
+			ix, ok := ast.Unparen(as.Lhs[0]).(*ast.IndexExpr)
+			if !ok {
+				return false
+			}
+			fld := core.FieldOf(info, ix.X)
+			return fld != nil && fld.Name() == "args" && kv != nil && core.VarOf(info, ix.Index) == kv && vv != nil && core.VarOf(info, as.Rhs[0]) == vv
+		}
+		without, _ := exactlyOnePerIteration(tg, rs, isStore, nil)
+		r.Check(!without, rule, tf, "every binding yielded by Args() is stored under its name", rs.Pos(), "each iteration executes t.args[name] = s",
+			"T can drop a binding (an iteration of the loop over Args() ends without `t.args[name] = s`): a placeholder bound to that argument then counts as unbound and panics instead of rendering the argument (for an empty argument: nothing)")
+		return true
+	})
+	if nloops == 0 {
+		r.Anchor(rule, "loop over TArg.Args() in snippet.T")
+	}
 }
 
 // closureYields lists the yield arguments of the innermost iterator closure of f.
@@ -705,7 +740,59 @@ func closureYields(p *core.Program, f *core.Func) (*core.Func, []*ast.CallExpr) 
 
 func c09R7(p *core.Program, r *core.Report) {
 	const rule = "R7"
-	r.Floor(rule, 8)
+	r.Floor(rule, 9)
+	// IsNil is asked before Frag on every rendering path (template, Sprintf, Snippets, Render):
+	// it must not consume what Frag is going to render. A receiver that is an iterator function
+	// or a channel is single-use; ranging over it (or calling it) in IsNil eats its first parts.
+	nIsNil := 0
+	for _, f := range p.Funcs() {
+		if core.RelPkg(f.Pkg.PkgPath) != "pkg/gengo/snippet" || f.Decl == nil || f.Decl.Recv == nil || f.Decl.Name.Name != "IsNil" {
+			continue
+		}
+		nIsNil++
+		finfo := f.Info()
+		rt := finfo.TypeOf(f.Decl.Recv.List[0].Type)
+		singleUse := false
+		if rt != nil {
+			switch rt.Underlying().(type) {
+			case *types.Signature, *types.Chan:
+				singleUse = true
+			}
+		}
+		bad := ""
+		if singleUse && len(f.Decl.Recv.List[0].Names) == 1 {
+			rv, _ := finfo.ObjectOf(f.Decl.Recv.List[0].Names[0]).(*types.Var)
+			ast.Inspect(f.Body, func(n ast.Node) bool {
+				switch x := n.(type) {
+				case *ast.RangeStmt:
+					if rv != nil && core.Mentions(finfo, x.X, rv) {
+						bad = "ranges over its single-use receiver"
+					}
+				case *ast.CallExpr:
+					if rv != nil {
+						if core.VarOf(finfo, x.Fun) == rv {
+							bad = "calls its iterator receiver"
+						}
+						for _, a := range x.Args {
+							if core.Mentions(finfo, a, rv) {
+								bad = "hands its single-use receiver to `" + core.ExprStr(x.Fun) + "`"
+							}
+						}
+					}
+				case *ast.UnaryExpr:
+					if x.Op == token.ARROW && rv != nil && core.Mentions(finfo, x.X, rv) {
+						bad = "receives from its channel receiver"
+					}
+				}
+				return true
+			})
+		}
+		r.Check(bad == "", rule, f, "IsNil does not consume what Frag renders", f.Node().Pos(), "no iteration of a single-use receiver",
+			"IsNil "+bad+": every rendering path asks IsNil before Frag, so the parts consumed by the probe are missing from the output of a one-shot sequence")
+	}
+	if nIsNil == 0 {
+		r.Anchor(rule, "IsNil methods of pkg/gengo/snippet")
+	}
 	fragName := "(" + core.G("pkg/gengo/snippet.Snippet") + ").Frag"
 	// rangeValueOver: v is the range key of a loop over a call named callee / over expr satisfying pred
 	rangeOver := func(it *core.Func, e ast.Expr, pred func(x ast.Expr) bool) bool {
